@@ -707,8 +707,11 @@ fn expand_brace_range(tokens: &mut types::Tokens) {
         }
 
         let mut result: Vec<String> = Vec::new();
-        let mut n = start;
-        if start > end {
+        // counted in i64: the step past a bound near i32::MAX / MIN must not
+        // overflow
+        let (end, incr) = (i64::from(end), i64::from(incr));
+        let mut n = i64::from(start);
+        if n > end {
             while n >= end {
                 result.push(format!("{}{}{}", prefix, n, suffix));
                 n -= incr;
